@@ -6,6 +6,7 @@
 #include "aj.hpp"
 
 #include <memory>
+#include <set>
 #include <string>
 #include <string_view>
 
@@ -56,19 +57,46 @@ inline Src srcFit(Src want, const std::string& bytes) {
 
 class Arena {
  public:
+  ~Arena() {
+    clear();
+  }
   const char* intern(const std::string& s) {
     // equal strings get distinct addresses on purpose (two literals need not be merged)
-    blocks_.emplace_back(new char[s.size() + 1]);
-    memcpy(blocks_.back().get(), s.data(), s.size());
-    blocks_.back()[s.size()] = 0;
-    return blocks_.back().get();
+    Entry e;
+    e.content = s;
+    e.buf = static_cast<char*>(malloc(s.size() + 1));
+    memcpy(e.buf, s.data(), s.size());
+    e.buf[s.size()] = 0;
+    entries_.push_back(e);
+    return e.buf;
+  }
+  // The caller of the library may release the buffer of a linked string once no value refers to it
+  // any more: every buffer whose content is not in `live` is scribbled over and freed.
+  size_t collect(const std::set<std::string>& live) {
+    size_t n = 0;
+    for (auto& e : entries_) {
+      if (e.buf && !live.count(e.content)) {
+        memset(e.buf, 0xEE, e.content.size() + 1);
+        free(e.buf);
+        e.buf = nullptr;
+        n++;
+      }
+    }
+    return n;
   }
   void clear() {
-    blocks_.clear();
+    for (auto& e : entries_)
+      if (e.buf)
+        free(e.buf);
+    entries_.clear();
   }
 
  private:
-  std::vector<std::unique_ptr<char[]>> blocks_;
+  struct Entry {
+    std::string content;
+    char* buf;
+  };
+  std::vector<Entry> entries_;
 };
 
 // Calls f(source) with the bytes presented as kind `k`; returns f's result.
